@@ -6,7 +6,7 @@ use std::{
     path::{Path, PathBuf},
 };
 
-use glob::glob;
+use glob::{glob, Pattern};
 use log::{debug, info, warn};
 
 use crate::{
@@ -84,8 +84,10 @@ fn load_links_for_layout(
     for step in &layout.steps {
         let mut links_per_step = HashMap::new();
 
-        let pattern = format!("{}.????????.link", step.name);
-        let mut path_pattern = PathBuf::from(link_dir);
+        // only the key id part is a pattern: the directory and the step
+        // name are taken literally, whatever characters they contain
+        let pattern = format!("{}.????????.link", Pattern::escape(&step.name));
+        let mut path_pattern = PathBuf::from(Pattern::escape(link_dir));
         path_pattern.push(pattern);
         let path_pattern = path_pattern.to_str().ok_or_else(|| {
             Error::VerificationFailure(format!(
